@@ -56,6 +56,53 @@ CHECKS = {
         technique="TLA+ spec (WriteSession) model-checked + TLC-enumerated histories replayed into code + trace validation with an independent reader",
         design_ref="3.3, 4 C08",
     ),
+    "C01": dict(
+        level="model_checking",
+        text="Stream.tla models the chunked decode glue (Worker.decompress loop, _buf/_pos carry-over, block reads) at the level of byte "
+             "counts for every chunking, block size, chunk limit, honouring and ignoring decoders and short streams; TLC checks exact "
+             "delivery, conservation, the carry-over bound and termination (liveness; negative control: the loop without the stall guard). "
+             "Config.tla enumerates the configuration space and transcribes the constructor's chain validation. Every chain the real "
+             "constructor accepts is executed with real codecs (sizes around 16 / I/O block / chunk limit, Unicode names, textures, "
+             "header raw/encoded/encrypted, path/BytesIO/buffered/multi-volume targets); the session trace is validated against "
+             "TraceWriteSession (names in order, identical bytes) and every decoder/AES object's step trace against TraceStream.",
+        note="Trusted: TLC; block size / chunk limit varied by replacing get_default_blocksize/get_memory_limit; codec byte fidelity is "
+             "observed (hash equality), not modelled; pyppmd failures are isolated by running the library alone (known finding).",
+        technique="TLA+ specs (Stream, Config, WriteSession) model-checked incl. liveness + TLC-enumerated configurations executed + trace validation (TraceWriteSession, TraceStream)",
+        design_ref="3.3, 3.4, 4 C01",
+    ),
+    "C12": dict(
+        level="model_checking",
+        text="ReadSession.tla models the per-folder decoder cache and the worker's target map; TLC checks Repeatable (every result equals "
+             "the result on a fresh open) and Untouched over all call sequences <= 3 on five model archives, with the pre-fix testzip "
+             "as negative control. Every sequence the quantifier allows (TLC-enumerated, <= 3 quick / <= 4 thorough) is executed on real "
+             "single- and multi-folder archives, plain and encrypted, by path and by stream, ended by close / with / exception; random "
+             "5-6 call sequences on random shapes; TraceReadSession validates every result and the archive hash.",
+        note="Trusted: TLC; archives come from the independent reference writer; content identified byte-for-byte.",
+        technique="TLA+ spec (ReadSession) model-checked + TLC-enumerated call sequences replayed into code + trace validation (TraceReadSession)",
+        design_ref="3.3, 4 C12",
+    ),
+    "C09": dict(
+        level="model_checking",
+        text="ReadSession.tla defines Selected(T, recursive) and the decode-and-discard bookkeeping; TLC checks Restriction/Repeatable for "
+             "every subset T of every model archive. On real archives (solid, multi-folder, random interleavings of directories and empty "
+             "files, encrypted or not) every subset of names plus absent names (sampled to 128 subsets per shape in quick) x recursive x "
+             "list/set x trailing slash x sink is extracted in a fresh session and TraceReadSession checks delivered = Selected, bytes "
+             "identical, nothing else created but needed parent directories.",
+        note="Trusted: TLC; reference writer; names are chosen prefix-free except along '/' as the quantifier demands.",
+        technique="TLA+ spec (ReadSession) model-checked + exhaustive subset enumeration executed + trace validation (TraceReadSession)",
+        design_ref="3.3, 4 C09",
+    ),
+    "C10": dict(
+        level="model_checking",
+        text="Listing calls are pure actions of ReadSession.tla (model-checked not to disturb results). On reference-written and "
+             "py7zr-written archives (random shapes, 17 coder chains, encrypted or not, path/stream) getnames/namelist/list/files, "
+             "getinfo, needs_password and archiveinfo are recorded before and after an extraction and TLC (TraceReadSession) compares "
+             "them with the member map: stored order, size and CRC32 of the extracted bytes, directory flag, KeyError for unknown names, "
+             "total size, block count, solid flag, method names = coders present, needs_password = AES coder or password supplied.",
+        note="Trusted: TLC; sizes/CRCs travel as 16-bit limbs; archiveinfo needs a file name and is only judged for archives opened by path.",
+        technique="TLA+ spec (ReadSession) + trace validation of recorded listing calls against the extracted member map (TraceReadSession)",
+        design_ref="3.3, 4 C10",
+    ),
 }
 
 NOT_YET = {}  # id -> reason; filled below for every property without a check
